@@ -193,6 +193,46 @@ def retag_one(nodes, rng):
     n[0] = bytes(b[:1])
 
 
+def constructed_leaf(nodes, rng):
+    """A primitive leaf rewritten in CONSTRUCTED form (the form BER allows for strings and the encoder never emits):
+    its contents become segments, one of them with a foreign tag, or the original contents are left to be read as
+    segments.  A decoder that retries a mismatching segment at the same offset never returns."""
+    flat = []
+
+    def walk(ns):
+        for n in ns:
+            if n[1] is None:
+                flat.append(n)
+            else:
+                walk(n[1])
+    walk(nodes)
+    if not flat:
+        return
+    n = rng.choice(flat)
+    body = n[2]
+    b = bytearray(n[0])
+    b[0] |= 0x20
+    n[0] = bytes(b)
+
+    def seg(t, c):
+        return bytes([t, len(c) & 0x7f]) + c[:127]
+    x = rng.random()
+    if x < .3:
+        return                                   # contents as they are, now read as a list of segments
+    own = (b[0] & 0x1f) if (b[0] & 0xc0) == 0 and (b[0] & 0x1f) in (3, 4, 12, 18, 19, 22, 26) else 4
+    if own == 3:
+        body = body[1:] if body else body
+    wrong = rng.choice([0x02, 0x05, 0x01, 0x0c if own != 0x0c else 0x04, 0x30, 0x80, 0x24])
+    h = rng.randrange(0, len(body) + 1)
+    pre = (b'\x00' if own == 3 else b'')
+    parts = [seg(own, pre + body[:h]), seg(wrong, b'\x12'), seg(own, pre + body[h:])]
+    if x < .5:
+        parts = parts[1:]                        # the foreign segment comes first
+    elif x < .6:
+        parts = parts[:2]                        # ... or last
+    n[2] = b''.join(parts)
+
+
 def tlv_hostile(rng, enc):
     """TLV-aware hostile variant of a valid BER/DER encoding: a constructed node rewritten to indefinite
     length (with or without end-of-contents), a substituted tag somewhere, or both."""
@@ -202,7 +242,9 @@ def tlv_hostile(rng, enc):
         return None
     k = count_constructed(nodes)
     st = {'count': 0, 'indef': rng.randrange(k) if k and rng.random() < .8 else None, 'drop_eoc': rng.random() < .25}
-    if rng.random() < .7 or st['indef'] is None:
+    if rng.random() < .35:
+        constructed_leaf(nodes, rng)
+    elif rng.random() < .7 or st['indef'] is None:
         retag_one(nodes, rng)
     try:
         return tlv_write(nodes, rng, st)
